@@ -38,6 +38,7 @@ import (
 	"github.com/99designs/gqlgen/graphql/handler/extension"
 	"github.com/99designs/gqlgen/graphql/handler/lru"
 	"github.com/99designs/gqlgen/graphql/handler/transport"
+	"github.com/vektah/gqlparser/v2/ast"
 	"github.com/vektah/gqlparser/v2/gqlerror"
 
 	"verif/internal/ev"
@@ -190,9 +191,12 @@ func newServer(k cacheKind, withHTTP bool) *server {
 	}
 	s.rc = &recCache{inner: inner}
 	s.exec = executor.New(es)
+	// a parsed-document cache as in the default server: what a hash resolves to must not depend on it
+	s.exec.SetQueryCache(lru.New[*ast.QueryDocument](64))
 	s.exec.Use(extension.AutomaticPersistedQuery{Cache: s.rc})
 	if withHTTP {
 		s.httpS = handler.New(es)
+		s.httpS.SetQueryCache(lru.New[*ast.QueryDocument](64))
 		s.httpS.AddTransport(transport.GET{})
 		s.httpS.AddTransport(transport.POST{})
 		s.httpS.Use(extension.AutomaticPersistedQuery{Cache: s.rc})
@@ -525,7 +529,7 @@ func randomHistories(rep *ev.Reporter, alpha []*symbol, seed int64, count, lengt
 			r := rand.New(rand.NewSource(seed*104729 + int64(h)))
 			k := ks[h%len(ks)]
 			// a working set of texts somewhat larger than the cache so that eviction happens
-			wset := 2 + r.Intn(6)
+			wset := 2 + r.Intn(len(texts)-1)
 			syms := make([]*symbol, length)
 			names := make([]string, length)
 			for i := range syms {
